@@ -90,7 +90,8 @@ class Model(HoloPyObject):
                 and new_name not in parameters_to_tie):
             msg = "Cannot name the tied parameter {}: another parameter has that name".format(new_name)
             raise ValueError(msg)
-        indices.sort()
+        # a name listed twice is still one parameter
+        indices = sorted(set(indices))
         for index in indices[:0:-1]:
             del(self._parameters[index])
             del(self._parameter_names[index])
